@@ -18,6 +18,9 @@ type Cfg struct {
 	EnumUnknown      string
 	// OutPkg is the package the code is emitted into (accessibility).
 	OutPkg *pgen.Package
+	// SigPkg is the package in which the converter signature is written: unnamed struct types that are not nested in a
+	// named declaration belong to it.
+	SigPkg *pgen.Package
 }
 
 // Result of the convertibility judgement.
@@ -32,7 +35,7 @@ type pairKey struct{ s, t *pgen.Decl }
 // Convertible implements the documented rule list (docs/explanation/generation.md + property C03).
 func Convertible(s, t *pgen.Type, cfg Cfg) Result {
 	r := Result{OK: true, Classes: map[string]bool{}}
-	j(s, t, cfg, map[pairKey]bool{}, &r, 0)
+	j(s, t, cfg, map[pairKey]bool{}, &r, 0, cfg.SigPkg, cfg.SigPkg)
 	return r
 }
 
@@ -58,7 +61,15 @@ func Identical(a, b *pgen.Type) bool {
 	case pgen.KBasic:
 		return canon(a.Basic) == canon(b.Basic)
 	case pgen.KNamed:
-		return a.Decl == b.Decl
+		if a.Decl != b.Decl || len(a.Args) != len(b.Args) {
+			return false
+		}
+		for i := range a.Args {
+			if !Identical(a.Args[i], b.Args[i]) {
+				return false
+			}
+		}
+		return true
 	case pgen.KPtr, pgen.KSlice:
 		return Identical(a.Elem, b.Elem)
 	case pgen.KArray:
@@ -70,7 +81,7 @@ func Identical(a, b *pgen.Type) bool {
 			return false
 		}
 		for i := range a.Fields {
-			if a.Fields[i].Name != b.Fields[i].Name || a.Fields[i].Embedded != b.Fields[i].Embedded || !Identical(a.Fields[i].T, b.Fields[i].T) {
+			if a.Fields[i].Name != b.Fields[i].Name || a.Fields[i].Embedded != b.Fields[i].Embedded || a.Fields[i].Tag != b.Fields[i].Tag || !Identical(a.Fields[i].T, b.Fields[i].T) {
 				return false
 			}
 		}
@@ -94,7 +105,14 @@ func exported(name string) bool {
 	return name != "" && name[0] >= 'A' && name[0] <= 'Z'
 }
 
-func j(s, t *pgen.Type, cfg Cfg, seen map[pairKey]bool, r *Result, depth int) {
+func j(s, t *pgen.Type, cfg Cfg, seen map[pairKey]bool, r *Result, depth int, sp, tp *pgen.Package) {
+	// unnamed struct types belong to the package of the nearest enclosing named declaration
+	if s.K == pgen.KNamed {
+		sp = s.Decl.Pkg
+	}
+	if t.K == pgen.KNamed {
+		tp = t.Decl.Pkg
+	}
 	if depth > r.Depth {
 		r.Depth = depth
 	}
@@ -132,44 +150,37 @@ func j(s, t *pgen.Type, cfg Cfg, seen map[pairKey]bool, r *Result, depth int) {
 	su, tu := s.Under(), t.Under()
 	switch {
 	case su.K == pgen.KPtr && tu.K == pgen.KPtr:
-		j(su.Elem, tu.Elem, cfg, seen, r, depth+1)
+		j(su.Elem, tu.Elem, cfg, seen, r, depth+1, sp, tp)
 	case su.K != pgen.KPtr && tu.K == pgen.KPtr:
-		j(s, tu.Elem, cfg, seen, r, depth+1)
+		j(s, tu.Elem, cfg, seen, r, depth+1, sp, tp)
 	case su.K == pgen.KPtr && tu.K != pgen.KPtr:
 		if !cfg.UseZero {
 			fail(r, "pointer-mismatch")
 			return
 		}
-		j(su.Elem, t, cfg, seen, r, depth+1)
+		j(su.Elem, t, cfg, seen, r, depth+1, sp, tp)
 	case su.K == pgen.KBasic && tu.K == pgen.KBasic:
 		if canon(su.Basic) != canon(tu.Basic) {
 			fail(r, "type-mismatch")
 		}
 	case su.K == pgen.KStruct && tu.K == pgen.KStruct:
-		jStruct(s, t, su, tu, cfg, seen, r, depth)
+		jStruct(s, t, su, tu, cfg, seen, r, depth, sp, tp)
 	case (su.K == pgen.KSlice || su.K == pgen.KArray) && tu.K == pgen.KSlice:
-		j(su.Elem, tu.Elem, cfg, seen, r, depth+1)
+		j(su.Elem, tu.Elem, cfg, seen, r, depth+1, sp, tp)
 	case su.K == pgen.KMap && tu.K == pgen.KMap:
-		j(su.Key, tu.Key, cfg, seen, r, depth+1)
-		j(su.Elem, tu.Elem, cfg, seen, r, depth+1)
+		j(su.Key, tu.Key, cfg, seen, r, depth+1, sp, tp)
+		j(su.Elem, tu.Elem, cfg, seen, r, depth+1, sp, tp)
 	default:
 		fail(r, "type-mismatch")
 	}
 }
 
-func declPkg(t *pgen.Type) *pgen.Package {
-	if t.K == pgen.KNamed {
-		return t.Decl.Pkg
-	}
-	return nil
-}
-
-func jStruct(s, t, su, tu *pgen.Type, cfg Cfg, seen map[pairKey]bool, r *Result, depth int) {
+func jStruct(s, t, su, tu *pgen.Type, cfg Cfg, seen map[pairKey]bool, r *Result, depth int, sp, tp *pgen.Package) {
 	for _, tf := range tu.Fields {
 		if !exported(tf.Name) && cfg.IgnoreUnexported {
 			continue
 		}
-		if !exported(tf.Name) && !accessible(t, tu, cfg.OutPkg) {
+		if !exported(tf.Name) && !(tp != nil && cfg.OutPkg != nil && tp == cfg.OutPkg) {
 			fail(r, "unexported-target")
 			continue
 		}
@@ -199,20 +210,11 @@ func jStruct(s, t, su, tu *pgen.Type, cfg Cfg, seen map[pairKey]bool, r *Result,
 			}
 			continue
 		}
-		if !exported(sf.Name) && !accessible(s, su, cfg.OutPkg) {
+		if !exported(sf.Name) && !(sp != nil && cfg.OutPkg != nil && sp == cfg.OutPkg) {
 			fail(r, "unexported-source")
 			continue
 		}
-		j(sf.T, tf.T, cfg, seen, r, depth+1)
+		j(sf.T, tf.T, cfg, seen, r, depth+1, sp, tp)
 	}
 }
 
-// accessible: unexported fields of a struct are usable only from the package that declares the struct type.
-// Unnamed struct types carry the package of the declaration they are written in (StructPkg).
-func accessible(t, under *pgen.Type, out *pgen.Package) bool {
-	p := declPkg(t)
-	if p == nil {
-		p = under.StructPkg
-	}
-	return p != nil && out != nil && p == out
-}
